@@ -24,10 +24,8 @@ func VH_queue_Step() {
 		vs[(h+i)%c] = x
 		ref = append(ref, x)
 	}
-	if n == 0 && h != 0 {
-		// an empty queue always has head 0 (reset to initial conditions)
-		vAssume(false)
-	}
+	// (an empty queue may have its head anywhere: the property does not depend on
+	// the reset-to-zero that the current code performs)
 	q := &Queue[int]{vs: vs, head: h, n: n}
 	op := vCase("op")
 	if n == c && c > 0 && h > 0 && op <= 1 {
@@ -58,9 +56,8 @@ func VH_queue_Step() {
 		}
 	}
 	// internal consistency that later steps rely on
-	vAssert(q.n <= len(q.vs), "representation: n <= len(buffer)")
-	vAssert(q.head >= 0 && (q.head < len(q.vs) || len(q.vs) == 0), "representation: head within buffer")
-	vAssert(q.n > 0 || q.head == 0, "representation: empty queue has head 0")
+	vInvariant(q.n <= len(q.vs), "n <= len(buffer)")
+	vInvariant(q.head >= 0 && (q.head < len(q.vs) || len(q.vs) == 0), "head within buffer")
 	if c >= 64 {
 		vCover("large-buffer")
 		return
@@ -70,4 +67,3 @@ func VH_queue_Step() {
 	ref = vApply(q, ref, op2, "second step")
 	vObserve(q, ref, "after second step")
 }
-
